@@ -58,9 +58,51 @@ func normDump(d string, ref time.Time, pre map[string]bool) string {
 	})
 }
 
+// looseDump: like normDump but every timestamp that was not in the pre-state becomes "T"
+// (presence and place of new timestamps matter, their value does not).
+func looseDump(d string, pre map[string]bool) string {
+	d = tsRe.ReplaceAllStringFunc(d, func(x string) string {
+		if pre[x] {
+			return x
+		}
+		return "T"
+	})
+	// ids created by the operation are drawn from a different stream in the faulted attempts
+	d = uuidRe.ReplaceAllStringFunc(d, func(x string) string {
+		if pre[x] {
+			return x
+		}
+		return "U"
+	})
+	lines := strings.Split(d, "\n")
+	// (row order inside a table is by rendered text: re-sort after the replacement)
+	var out []string
+	var block []string
+	flush := func() {
+		sort.Strings(block)
+		out = append(out, block...)
+		block = nil
+	}
+	for _, l := range lines {
+		if strings.HasPrefix(l, "## ") {
+			flush()
+			out = append(out, l)
+			continue
+		}
+		block = append(block, l)
+	}
+	flush()
+	return strings.Join(out, "\n")
+}
+
+var uuidRe = regexp.MustCompile(`[0-9a-f]{8}-[0-9a-f]{4}-[0-9a-f]{4}-[0-9a-f]{4}-[0-9a-f]{12}`)
+
 func tsSet(d string) map[string]bool {
 	m := map[string]bool{}
 	for _, x := range tsRe.FindAllString(d, -1) {
+		m[x] = true
+	}
+	for _, x := range uuidRe.FindAllString(d, -1) {
 		m[x] = true
 	}
 	return m
@@ -264,6 +306,28 @@ func runAtomic(t *testing.T, tape *Tape, w *World, variant string, steps int, ou
 			return
 		}
 	}
+	// a fixture that guarantees dead-letter moves with a live target: a subscription whose
+	// attempts are used up, dead-lettering into a topic that has a subscriber
+	for _, f := range []func() *Violation{
+		func() *Violation { return r.xTopic(8) },
+		func() *Violation { return r.xTopic(9) },
+		func() *Violation { return r.xSub(9, 9, nil) },
+		func() *Violation {
+			return r.xSub(8, 8, func(c *SubCfg, q *pubsubpb.Subscription) {
+				c.DLTopic, c.MaxAttempts = r.M.LiveTopic(topicName(9)), 1
+				q.DeadLetterPolicy = &pubsubpb.DeadLetterPolicy{DeadLetterTopic: topicName(9), MaxDeliveryAttempts: 1}
+			})
+		},
+		func() *Violation { return r.xPublish(8, nil, "") },
+		func() *Violation { return r.xPublish(8, nil, "") },
+		func() *Violation { return r.pullSub(r.M.LiveSub(subName(8)), false) },
+	} {
+		if v := f(); v != nil {
+			out.v = v
+			out.trace = r.Trace
+			return
+		}
+	}
 	// move the clock so that leases lapse and dead-letter candidates exist
 	time.Sleep(time.Duration(1+tape.Intn(3)) * 11 * time.Minute)
 	S.Settle()
@@ -321,6 +385,7 @@ func (r *Run) atomOne(op atomOp, st *atomStats, uuidSeed *int64) *Violation {
 	cleanPostT, _ := w2.Dump(op.pullType)
 	cleanChanges := cleanPreT != cleanPostT // does the operation, run cleanly, change the tables at all?
 	cleanDump, _ := w2.Dump(false)
+	cleanLoose := looseDump(cleanDump, preTS)
 	cleanDump = normDump(cleanDump, start2, preTS)
 	w2.Close()
 	if _, ok := isPanic(cleanErr); ok {
@@ -398,6 +463,11 @@ func (r *Run) atomOne(op atomOp, st *atomStats, uuidSeed *int64) *Violation {
 				r.stat("atomic_succeeded_despite_fault")
 				post, _ := w.Dump(op.pullType)
 				if post != pre {
+					// a reported success must be the whole effect, not part of it
+					full, _ := w.Dump(false)
+					if got := looseDump(full, preTS); got != cleanLoose && !crashed {
+						return viol("C09", "success_partial", "%s reported success (fault %v at driver event %d of %d, kind %c) but the tables differ from those after the same operation without a fault:\n%s", op.name, kind, k, n, evts[k-1], diffLines(cleanLoose, got))
+					}
 					// a success changes state: everything after this is a different cell
 					return r.atomFinish(op, st, seed, cleanDump, preTS, true)
 				}
